@@ -40,11 +40,11 @@ typedef struct { VF_Vec minima_list_; VF_Vec vertex_lists_; } VOwnerS;
 Vertex g_va0[1], g_va1[1], g_va2[1]; bool g_vadel[3]; int g_vabad;
 #define VF_DELETE_ARR(v) do { int k_ = (v) == g_va0 ? 0 : (v) == g_va1 ? 1 : (v) == g_va2 ? 2 : -1; if (k_ >= 0) { __CPROVER_assert(!g_vadel[k_], "no double delete[] of a vertex array"); g_vadel[k_] = true; } else g_vabad++; } while (0)
 //@extract file=CPP/Clipper2Lib/src/clipper.engine.cpp func=ClipperBase::DisposeVerticesAndLocalMinima self=VOwnerS rangefor=1 vec=vertex_lists_,minima_list_ ifdef=VERTS
-//@sub /delete\s*\[\]\s*v;/VF_DELETE_ARR(v);/
+//@sub /delete\s*\[\]\s*v;/VF_DELETE_ARR(v);/ min=0
 //@sub /self->vertex_lists_\.data\[vf_i_v\]/((Vertex**)self->vertex_lists_.data)[vf_i_v]/ min=0
 //@end
 //@extract file=CPP/Clipper2Lib/src/clipper.engine.cpp func=ReuseableDataContainer64::Clear as=RDC_Clear self=VOwnerS rangefor=1 vec=vertex_lists_,minima_list_ ifdef=VERTS
-//@sub /delete\s*\[\]\s*v;/VF_DELETE_ARR(v);/
+//@sub /delete\s*\[\]\s*v;/VF_DELETE_ARR(v);/ min=0
 //@sub /self->vertex_lists_\.data\[vf_i_v\]/((Vertex**)self->vertex_lists_.data)[vf_i_v]/ min=0
 //@end
 unsigned nondet_uint(void); bool nondet_bool(void);
